@@ -39,6 +39,29 @@ HARNESSES = [
 HOOK_COMMITS = []
 HOOKS_ADD_ONLY = True
 
+HARNESSES += [
+    {
+        "name": "parse_status", "props": ["C01"], "src": "h_parse_status.c",
+        "contracts": ["public.h"], "includes": ["process.posix.c"], "enforce": "parse_status",
+        "what": "parse_status over the full int domain against a decode written from the POSIX wait-status layout",
+    },
+    {
+        "name": "process_wait", "props": ["C01", "C06", "C05"], "src": "h_process_wait.c",
+        "contracts": ["public.h"], "enforce": "process_wait",
+        "what": "process_wait: exactly one blocking waitpid on the own, unreaped child; exact status; no reap on error",
+    },
+    {
+        "name": "process_terminate", "props": ["C07", "C06", "C05"], "src": "h_process_signal.c",
+        "contracts": ["public.h"], "enforce": "process_terminate", "defs": {"WHICH_TERMINATE": None},
+        "what": "process_terminate sends SIGTERM once to the own, unreaped child",
+    },
+    {
+        "name": "process_kill", "props": ["C07", "C06", "C05"], "src": "h_process_signal.c",
+        "contracts": ["public.h"], "enforce": "process_kill", "defs": {"WHICH_KILL": None},
+        "what": "process_kill sends SIGKILL once to the own, unreaped child",
+    },
+]
+
 ALL_FUNCTIONS = set()
 for _h in HARNESSES:
     if _h.get("enforce"):
